@@ -260,6 +260,36 @@ def register(E):
     E.via_call = via_call
     E.outs_to_model = outs_to_model
 
+    @model(r'^<(?!std::|core::|alloc::)(.+) as std::ops::RangeBounds>::contains$')
+    def _(E, st, callee, a, m):
+        """provided RangeBounds::contains on a crate-local range type: the std default body, over the crate's own
+        start_bound / end_bound; items are integers or integer newtypes (js_int)"""
+        cs = callee.strip()
+        inner = cs[1:cs.rindex('>::')]
+        def as_int(v):
+            v = d(st, v)
+            while isinstance(v, Adt) and len(v.fields) == 1:
+                v = d(st, v.fields[0])
+            if not isinstance(v, I):
+                raise Inconclusive('RangeBounds::contains on a non-integer item')
+            return v
+        item = as_int(a[1])
+        signed = 'Int>' in inner.split(' as ')[1] and 'UInt>' not in inner.split(' as ')[1]
+        lt = (lambda x, y: x < y) if signed else z3.ULT
+        le = (lambda x, y: x <= y) if signed else z3.ULE
+        res = []
+        for c1, o1 in E.call_value(st, FnItem('<' + inner + '>::start_bound'), [a[0]]):
+            if o1.kind != 'ret':
+                res.append((c1, Panic(str(o1.value)))); continue
+            for c2, o2 in E.call_value(o1.st, FnItem('<' + inner + '>::end_bound'), [a[0]]):
+                if o2.kind != 'ret':
+                    res.append((z3.And(c1, c2), Panic(str(o2.value)))); continue
+                sb, eb = o1.value, o2.value
+                lo = T if sb.variant == 'Unbounded' else (le if sb.variant == 'Included' else lt)(as_int(E.deref(o2.st, sb.fields[0])).v, item.v)
+                hi = T if eb.variant == 'Unbounded' else (le if eb.variant == 'Included' else lt)(item.v, as_int(E.deref(o2.st, eb.fields[0])).v)
+                res.append((z3.And(c1, c2), z3.And(lo, hi)))
+        return res
+
     def deref_via_trait(E, st, inner_ref, orig):
         raise Inconclusive('as_deref on newtype')
 
